@@ -50,6 +50,9 @@ OUT_JSON = os.path.join(LEAN, "MypyVerif", "Gen", "IrOps.json")
 # functions the theorems of Props/C15.lean (section "IR ties") are about
 REQUIRED = [
     "lt_int", "le_int", "gt_int", "ge_int", "eq_int", "ne_int",
+    "add_int", "sub_int", "mul_int", "and__int", "or__int", "xor_int", "neg_int", "inv_int", "fdiv_int", "mod_int",
+    "lsh_int", "rsh_int", "iadd_int", "isub_int", "imul_int", "ifdiv_int", "imod_int", "iand_int", "ior_int", "ixor_int",
+    "ilsh_int", "irsh_int",
     "add_i64", "sub_i64", "mul_i64", "and__i64", "or__i64", "xor_i64", "lsh_i64", "rsh_i64", "fdiv_i64", "mod_i64",
     "neg_i64", "inv_i64", "lt_i64", "eq_i64",
     "add_i32", "mul_i32", "rsh_i32", "fdiv_i32", "mod_i32", "neg_i32", "le_i32",
@@ -389,6 +392,66 @@ def raisers_from_c(repo: str) -> dict[str, str]:
     return out
 
 
+# self-test functions are compiled together with the harness module (one mypyc build), translated, compared with the
+# literal expected Lean text, and dropped; each has a mutant whose translation must differ
+SELFTEST_SRC = """
+def st_add(a: i64, b: i64) -> i64:
+    return a + b
+def st_add_mut(a: i64, b: i64) -> i64:
+    return a - b
+def st_lt(a: int, b: int) -> bool:
+    return a < b
+def st_lt_mut(a: int, b: int) -> bool:
+    return a <= b
+def st_div8(a: u8, b: u8) -> u8:
+    return a // b
+def st_div8_mut(a: u8, b: u8) -> u8:
+    return a % b
+def st_conv(a: int) -> i16:
+    return i16(a)
+def st_conv_mut(a: int) -> i32:
+    return i32(a)
+"""
+SELFTEST_EXPECT = {
+    "st_add": """def st_add (a : BitVec 64) (b : BitVec 64) : CSem.Res (BitVec 64) :=
+  .fast (a + b)""",
+    "st_lt": """def st_lt (a : BitVec 64) (b : BitVec 64) : CSem.Res Bool :=
+  if ((a &&& 1#64) != 0#64) then
+    .slow ⟨"CPyTagged_IsLt_", [a, b], false⟩
+  else
+    if ((b &&& 1#64) != 0#64) then
+      .slow ⟨"CPyTagged_IsLt_", [a, b], false⟩
+    else
+      .fast (BitVec.slt a b)""",
+    "st_div8": """def st_div8 (a : BitVec 8) (b : BitVec 8) : CSem.Res (BitVec 8) :=
+  if (b == 0#8) then
+    .raise "ZeroDivisionError" 239#8
+  else
+    .fast (a / b)""",
+    "st_conv": """def st_conv (a : BitVec 64) : CSem.Res (BitVec 16) :=
+  if ((a &&& 1#64) == 0#64) then
+    if (BitVec.slt a 65536#64) then
+      if (BitVec.sle 18446744073709486080#64 a) then
+        .fast (BitVec.truncate 16 (BitVec.sshiftRight a 1))
+      else
+        .raise "ValueError" 65423#16
+    else
+      .raise "ValueError" 65423#16
+  else
+    .raise "ValueError" 65423#16""",
+}
+
+
+def selftest(texts: dict[str, str]) -> None:
+    for name, want in SELFTEST_EXPECT.items():
+        got = texts.get(name)
+        if got is None or got.strip() != want.strip():
+            raise Unsupported(f"irops self-test: translation of `{name}` changed:\n{got}\n-- expected --\n{want}")
+        mut = texts.get(name + "_mut")
+        if mut is None or mut.replace(name + "_mut", name).strip() == got.strip():
+            raise Unsupported(f"irops self-test: the mutant of `{name}` translates to the same Lean text")
+
+
 HEADER = """import MypyVerif.Gen.CFast
 /-!
 GENERATED by translate/irops.py from the final mypyc IR of the C15 harness functions — do not edit.
@@ -407,9 +470,16 @@ def generate(repo: str = REPO) -> tuple[str, dict]:
     tr = IrTranslator(inv)
     fns = gen.functions()
     wanted = {f.name for f in fns if f.group in ("int", "const", "fixed", "fixedconst", "conv", "mixed", "convfixed", "norm")}
-    mod = module_ir(gen.source(fns))
+    mod = module_ir(gen.source(fns) + SELFTEST_SRC)
     out, done, skipped = [], [], []
+    st_texts: dict[str, str] = {}
     for fn in mod.functions:
+        if fn.name.startswith("st_"):
+            try:
+                st_texts[fn.name] = tr.function(fn)[0]
+            except Unsupported as e:
+                raise Unsupported(f"irops self-test: `{fn.name}` is not translatable: {e}")
+            continue
         if fn.name not in wanted:
             continue
         try:
@@ -421,6 +491,7 @@ def generate(repo: str = REPO) -> tuple[str, dict]:
             continue
         out.append(text)
         done.append(meta)
+    selftest(st_texts)
     missing = [n for n in REQUIRED if n not in {d["name"] for d in done}]
     if missing:
         raise Unsupported(f"required harness functions missing from the IR: {missing}")
